@@ -963,6 +963,7 @@ class Filter:
     def evaluate(self, left: object, context: RenderContext) -> object:
         func = context.filter(self.name, token=self.token)
         positional_args, keyword_args = self.evaluate_args(context)
+        self._check_reserved_keywords(func, keyword_args)
         try:
             return func(left, *positional_args, **keyword_args)
         except (
@@ -980,6 +981,7 @@ class Filter:
     async def evaluate_async(self, left: object, context: RenderContext) -> object:
         func = context.filter(self.name, token=self.token)
         positional_args, keyword_args = await self.evaluate_args_async(context)
+        self._check_reserved_keywords(func, keyword_args)
 
         try:
             return func(left, *positional_args, **keyword_args)
@@ -994,6 +996,22 @@ class Filter:
         except LiquidTypeError as err:
             err.token = self.token
             raise err
+
+    def _check_reserved_keywords(
+        self, func: object, keyword_args: dict[str, object]
+    ) -> None:
+        """Raise an error if a template argument would replace one of ours.
+
+        The render context and environment are passed to filters that ask for them as
+        keyword arguments. A keyword argument with the same name written in a template
+        would silently take their place.
+        """
+        for name in getattr(func, "keywords", None) or ():
+            if name in keyword_args:
+                raise LiquidTypeError(
+                    f"{self.name}: unexpected keyword argument '{name}'",
+                    token=self.token,
+                )
 
     def evaluate_args(
         self, context: RenderContext
